@@ -1,5 +1,6 @@
 (* C19 adaptor: every element the semantic class-diagram writer (Model/UmlSem.v) draws lies in the domain of the
-   text-level theorem (Proofs/UmlBlobText.v, parse_top): well formed, brace free, no apostrophe in the printed bytes. *)
+   text-level theorem (Proofs/UmlBlobText.v, parse_top_q): well formed, brace free, no apostrophe in the printed bytes
+   (the writer never draws free text, IRaw: the narrow domain is proved and widened at the end by nb_nbq / sq_quote_ok). *)
 From Coq Require Import String Ascii List Bool Arith Lia.
 From KV Require Import Lib.Str Lib.ODict Model.Vpp Model.VppWriter Model.Uml Model.UmlBlob Model.UmlWriter Model.UmlSem
                        Proofs.VppStr Proofs.UmlBlobDefs Proofs.UmlBlobStruct Proofs.UmlBlobFields Proofs.UmlBlobText Proofs.UmlBlobRound.
@@ -34,13 +35,17 @@ Proof.
   - rewrite nodes_text_more. specialize (IH Ht). nc.
 Qed.
 
-Lemma item_sq : forall it, wf_item it = true -> Forall sq_spec (kids_of it) -> no_char SQ (print_item it) = true.
+(* the semantic writer draws properties, reference lists and owned elements only: no free text *)
+Definition noraw_item (it : witem) : bool := match it with IRaw _ | IInert _ => false | _ => true end.
+
+Lemma item_sq : forall it, noraw_item it = true -> wf_item it = true -> Forall sq_spec (kids_of it) ->
+  no_char SQ (print_item it) = true.
 Proof.
-  intros it Hw H. destruct it as [ws k v|ws k o sep c ids|ws k o sep c ns|s|s]; try discriminate Hw;
+  intros it Hr Hw H. destruct it as [ws k v|ws k o sep c ids|ws k o sep c ns|s|s]; try discriminate Hr;
     cbn [wf_item seg_of seg_ok] in Hw; split_and.
   - destruct (valok_cases v ltac:(assumption)) as [Hp _].
     unfold keyok in *. split_and. rewrite wsok_allc, ?plain_allc in *. cbn [print_item]. nc.
-  - pose proof (refs_text_cls sep ids) as Hr. rewrite <- layok_allc in Hr. specialize (Hr ltac:(assumption) ltac:(assumption)).
+  - pose proof (refs_text_cls sep ids) as Hr'. rewrite <- layok_allc in Hr'. specialize (Hr' ltac:(assumption) ltac:(assumption)).
     unfold keyok in *. split_and. rewrite wsok_allc, ?plain_allc, ?layok_allc in *. cbn [print_item]. nc.
   - cbn [kids_of] in H. rewrite print_children_eq.
     unfold keyok in *. split_and. rewrite wsok_allc, ?plain_allc, ?layok_allc in *.
@@ -48,24 +53,19 @@ Proof.
     pose proof (nodes_sq sep ns Hs H) as Hn. nc.
 Qed.
 
-Lemma items_sq : forall its, forallb wf_item its = true -> Forall sq_spec (children_of its) ->
-  no_char SQ (cat (map print_item its)) = true.
+Definition sq_item (it : witem) : bool := no_char SQ (print_item it).
+Definition sq_node (n : wnode) : bool := no_char SQ (print_node n).
+
+Lemma items_sq : forall its, forallb sq_item its = true -> no_char SQ (cat (map print_item its)) = true.
 Proof.
-  induction its as [|it r IH]; intros Hw H; [reflexivity|].
-  cbn [forallb] in Hw. apply andb_true_iff in Hw. destruct Hw as [Hw1 Hw2].
-  rewrite children_of_cons in H. apply Forall_app in H. destruct H as [K1 K2].
-  cbn [map cat]. rewrite no_char_app, (item_sq it Hw1 K1), (IH Hw2 K2). reflexivity.
+  induction its as [|it r IH]; intro H; [reflexivity|].
+  cbn [forallb] in H. apply andb_true_iff in H. destruct H as [H1 H2]. unfold sq_item in H1.
+  cbn [map cat]. rewrite no_char_app, H1, (IH H2). reflexivity.
 Qed.
 
-Lemma wf_sq : forall n, wf_node n = true -> no_char SQ (print_node n) = true.
+Lemma sq_nodes_Forall : forall ns, forallb sq_node ns = true -> Forall sq_spec ns.
 Proof.
-  induction n as [id nm ty its tl H] using wnode_ind2. intro Hw.
-  rewrite wf_node_eq in Hw. apply andb_true_iff in Hw. destruct Hw as [Hw Hi]. apply andb_true_iff in Hw. destruct Hw as [Hh Ht].
-  assert (Hc : Forall sq_spec (children_of its)).
-  { apply Forall_forall. intros x Hx. apply (proj1 (Forall_forall _ _) H x Hx).
-    exact (proj1 (Forall_forall _ _) (wf_items_children its Hi) x Hx). }
-  pose proof (items_sq its Hi Hc) as Hits. pose proof (head_pq _ _ _ Hh) as Hhd. rewrite wsok_allc in Ht.
-  rewrite print_node_eq. nc.
+  intros ns H. apply Forall_forall. intros x Hx. rewrite forallb_forall in H. exact (H x Hx).
 Qed.
 
 (* ---------------------------------------------------------------- texts, identifiers *)
@@ -87,6 +87,15 @@ Lemma txt_textok : forall s, txt s = true -> textok s = true.
 Proof. intros s H. exact (proj1 (proj2 (txt_parts s H))). Qed.
 Lemma txt_nobrace : forall s, txt s = true -> nobrace s = true.
 Proof. intros s H. exact (proj2 (proj2 (txt_parts s H))). Qed.
+Lemma txt_vtextok : forall s, txt s = true -> vtextok s = true.
+Proof. intros s H. unfold txt in H. split_and. unfold vtextok. apply andb_true_iff. split; assumption. Qed.
+
+(* a value text (it may hold ','): plain, stripped, brace free *)
+Lemma vtxt_parts : forall s, vtxt s = true -> vtextok s = true /\ nobrace s = true.
+Proof.
+  intros s H. unfold vtxt in H. split_and. split; [|apply nobrace_nc; assumption].
+  unfold vtextok. apply andb_true_iff. split; assumption.
+Qed.
 
 Lemma ident_parts : forall s, ident s = true ->
   txt s = true /\ no_char ":" s = true /\ idok s = true /\ nobrace s = true.
@@ -111,20 +120,29 @@ Proof.
   replace (String.length v + 1 - 1) with (String.length v) by lia. apply substring_app_len.
 Qed.
 
-Lemma valok_q : forall v, txt v = true -> valok (q v) = true.
+Lemma valok_qt : forall v, vtextok v = true -> valok (q v) = true.
 Proof.
-  intros v H. unfold valok. rewrite unq_q, (txt_textok v H).
+  intros v H. unfold valok. rewrite unq_q, H.
   assert (E : prefixb dq (q v) = true) by (unfold q, dq; cbn [append prefixb]; rewrite Ascii.eqb_refl; reflexivity).
   rewrite E. unfold q. rewrite String.eqb_refl. apply orb_true_r.
 Qed.
 
+Lemma nobrace_qt : forall v, nobrace v = true -> nobrace (q v) = true.
+Proof. intros v H. unfold q, dq. rewrite !nobrace_app, H. reflexivity. Qed.
+
+Lemma valok_q : forall v, txt v = true -> valok (q v) = true.
+Proof. intros v H. apply valok_qt, txt_vtextok, H. Qed.
 Lemma nobrace_q : forall v, txt v = true -> nobrace (q v) = true.
-Proof. intros v H. unfold q, dq. rewrite !nobrace_app, (txt_nobrace v H). reflexivity. Qed.
+Proof. intros v H. apply nobrace_qt, txt_nobrace, H. Qed.
+Lemma valok_qv : forall v, vtxt v = true -> valok (q v) = true.
+Proof. intros v H. apply valok_qt. exact (proj1 (vtxt_parts v H)). Qed.
+Lemma nobrace_qv : forall v, vtxt v = true -> nobrace (q v) = true.
+Proof. intros v H. apply nobrace_qt. exact (proj2 (vtxt_parts v H)). Qed.
 
 Lemma code_good : forall c, code_ok (Some c) = true -> valok c = true /\ nobrace c = true.
 Proof.
   intros c H. cbn [code_ok] in H. split_and. split; [|apply txt_nobrace; assumption].
-  unfold valok. rewrite (txt_textok c) by assumption.
+  unfold valok. rewrite (txt_vtextok c) by assumption.
   match goal with H : negb (prefixb dq c) = true |- _ => rewrite H end. reflexivity.
 Qed.
 
@@ -132,7 +150,7 @@ Lemma noise_val_good : forall v, noise_val v = true -> valok v = true /\ nobrace
 Proof.
   intros v H. unfold noise_val in H. apply orb_true_iff in H. destruct H as [H|H].
   - split_and. split; [|apply txt_nobrace; assumption].
-    unfold valok. rewrite (txt_textok v) by assumption.
+    unfold valok. rewrite (txt_vtextok v) by assumption.
     match goal with H : negb (prefixb dq v) = true |- _ => rewrite H end. reflexivity.
   - remember (substring 1 (String.length v - 2) v) as u eqn:Eu. clear Eu. split_and.
     match goal with H : String.eqb v (q u) = true |- _ => apply String.eqb_eq in H; subst v end.
@@ -215,13 +233,15 @@ Proof. intro n. pose proof (tabs_allc n) as H. unfold list_close. rewrite layok_
 
 (* ---------------------------------------------------------------- good items *)
 
-Definition good (it : witem) : Prop := wf_item it = true /\ nb_full it = true.
+Definition good (it : witem) : Prop := wf_item it = true /\ nb_full it = true /\ sq_item it = true.
 
 Lemma field_good : forall ws k v, wsok ws = true -> keyok k = true -> nobrace k = true -> valok v = true -> nobrace v = true ->
   good (IField ws k v).
 Proof.
-  intros ws k v H1 H2 H3 H4 H5. unfold good, nb_full. cbn [wf_item seg_of seg_ok nb_item].
-  rewrite H1, H2, H3, H4, H5. split; reflexivity.
+  intros ws k v H1 H2 H3 H4 H5.
+  assert (W : wf_item (IField ws k v) = true) by (cbn [wf_item seg_of seg_ok]; rewrite H1, H2, H4; reflexivity).
+  split; [exact W|]. split; [unfold nb_full; cbn [nb_item]; rewrite H3, H5; reflexivity|].
+  exact (item_sq (IField ws k v) eq_refl W (Forall_nil _)).
 Qed.
 
 Lemma some_field_good : forall ws k v it, Some (IField ws k v) = Some it ->
@@ -232,23 +252,28 @@ Lemma refs_good : forall ws k o sep c ids, wsok ws = true -> keyok k = true -> n
   layok o = true -> layok sep = true -> layok c = true -> forallb idok ids = true -> forallb nobrace ids = true ->
   good (IRefs ws k o sep c ids).
 Proof.
-  intros ws k o sep c ids H1 H2 H3 H4 H5 H6 H7 H8. unfold good, nb_full. cbn [wf_item seg_of seg_ok nb_item].
-  rewrite H1, H2, H3, H4, H5, H6, H7, H8. split; reflexivity.
+  intros ws k o sep c ids H1 H2 H3 H4 H5 H6 H7 H8.
+  assert (W : wf_item (IRefs ws k o sep c ids) = true) by (cbn [wf_item seg_of seg_ok]; rewrite H1, H2, H4, H5, H6, H7; reflexivity).
+  split; [exact W|]. split; [unfold nb_full; cbn [nb_item]; rewrite H3, H8; reflexivity|].
+  exact (item_sq (IRefs ws k o sep c ids) eq_refl W (Forall_nil _)).
 Qed.
 
 Lemma children_good : forall ws k o sep c ns, wsok ws = true -> keyok k = true -> nobrace k = true ->
-  layok o = true -> layok sep = true -> layok c = true -> forallb (fun x => wf_node x) ns = true -> forallb nb_node ns = true ->
+  layok o = true -> layok sep = true -> layok c = true ->
+  forallb (fun x => wf_node x) ns = true -> forallb nb_node ns = true -> forallb sq_node ns = true ->
   good (IChildren ws k o sep c ns).
 Proof.
-  intros ws k o sep c ns H1 H2 H3 H4 H5 H6 H7 H8. unfold good, nb_full. cbn [wf_item seg_of seg_ok nb_item].
-  rewrite H1, H2, H3, H4, H5, H6, H7, H8. split; reflexivity.
+  intros ws k o sep c ns H1 H2 H3 H4 H5 H6 H7 H8 H9.
+  assert (W : wf_item (IChildren ws k o sep c ns) = true) by (cbn [wf_item seg_of seg_ok]; rewrite H1, H2, H4, H5, H6, H7; reflexivity).
+  split; [exact W|]. split; [unfold nb_full; cbn [nb_item]; rewrite H3, H8; reflexivity|].
+  exact (item_sq (IChildren ws k o sep c ns) eq_refl W (sq_nodes_Forall ns H9)).
 Qed.
 
-Lemma text_field_good : forall ws k v it, wsok ws = true -> keyok k = true -> nobrace k = true -> txt v = true ->
+Lemma text_field_good : forall ws k v it, wsok ws = true -> keyok k = true -> nobrace k = true -> vtxt v = true ->
   text_field ws k v = Some it -> good it.
 Proof.
   intros ws k v it H1 H2 H3 H4 E. unfold text_field in E. destruct (String.eqb v ""); [discriminate E|].
-  inversion E. apply field_good; try assumption; [apply valok_q | apply nobrace_q]; assumption.
+  inversion E. apply field_good; try assumption; [apply valok_qv | apply nobrace_qv]; assumption.
 Qed.
 
 Lemma flag_field_good : forall ws k b it, wsok ws = true -> keyok k = true -> nobrace k = true ->
@@ -281,44 +306,66 @@ Proof. intros f l H. unfold layout_ok in H. split_and. assumption. Qed.
 
 Lemma items_of_good : forall ws f l, wsok ws = true -> noise_ok l = true ->
   (forall t it, f t = Some it -> good it) ->
-  forallb wf_item (items_of ws f l) = true /\ forallb nb_full (items_of ws f l) = true.
+  forallb wf_item (items_of ws f l) = true /\ forallb nb_full (items_of ws f l) = true /\ forallb sq_item (items_of ws f l) = true.
 Proof.
-  intros ws f l Hws Hn Hf. induction l as [|s l IH]; [split; reflexivity|].
+  intros ws f l Hws Hn Hf. induction l as [|s l IH]; [repeat split; reflexivity|].
   unfold noise_ok in Hn. cbn [forallb] in Hn. apply andb_true_iff in Hn. destruct Hn as [Hs Hl].
-  destruct (IH Hl) as [IH1 IH2]. unfold items_of. cbn [flat_map]. fold (items_of ws f l). rewrite !forallb_app, IH1, IH2, !andb_true_r.
+  destruct (IH Hl) as [IH1 [IH2 IH3]]. unfold items_of. cbn [flat_map]. fold (items_of ws f l).
+  rewrite !forallb_app, IH1, IH2, IH3, !andb_true_r.
   destruct s as [k v|t].
   - apply andb_true_iff in Hs. destruct Hs as [Hk Hv].
     destruct (noise_key_good k Hk) as [K1 K2]. destruct (noise_val_good v Hv) as [V1 V2].
-    destruct (field_good ws k v Hws K1 K2 V1 V2) as [G1 G2]. cbn [forallb]. rewrite G1, G2. split; reflexivity.
-  - destruct (f t) as [it|] eqn:E; [|split; reflexivity].
-    destruct (Hf t it E) as [G1 G2]. cbn [forallb]. rewrite G1, G2. split; reflexivity.
+    destruct (field_good ws k v Hws K1 K2 V1 V2) as [G1 [G2 G3]]. cbn [forallb]. rewrite G1, G2, G3. repeat split; reflexivity.
+  - destruct (f t) as [it|] eqn:E; [|repeat split; reflexivity].
+    destruct (Hf t it E) as [G1 [G2 G3]]. cbn [forallb]. rewrite G1, G2, G3. repeat split; reflexivity.
 Qed.
 
-Definition name_ok (nm : option string) : bool := match nm with Some s => txt s && no_char ":" s | None => true end.
+(* a header name: a text without ':' (UmlSem.name_ok demands this and that a given key does not occur in it) *)
+Definition hname_ok (nm : option string) : bool := match nm with Some s => txt s && no_char ":" s | None => true end.
 
-Lemma ident_name_ok : forall s, ident s = true -> name_ok (Some s) = true.
-Proof. intros s H. destruct (ident_parts s H) as [H1 [H2 _]]. cbn [name_ok]. rewrite H1, H2. reflexivity. Qed.
+Lemma name_ok_hname : forall a nm, UmlSem.name_ok a nm = true -> hname_ok nm = true.
+Proof.
+  intros a nm H. destruct nm as [n|]; [|reflexivity]. cbn [UmlSem.name_ok] in H. split_and.
+  cbn [hname_ok]. apply andb_true_iff. split; assumption.
+Qed.
 
-Lemma head_good : forall id nm ty, ident id = true -> name_ok nm = true -> ident ty = true ->
+Lemma ident_name_ok : forall s, ident s = true -> hname_ok (Some s) = true.
+Proof. intros s H. destruct (ident_parts s H) as [H1 [H2 _]]. cbn [hname_ok]. rewrite H1, H2. reflexivity. Qed.
+
+Lemma head_good : forall id nm ty, ident id = true -> hname_ok nm = true -> ident ty = true ->
   headok id nm ty = true /\ nobrace id = true /\ nobrace (name_text nm) = true /\ nobrace ty = true.
 Proof.
   intros id nm ty Hi Hn Ht.
   destruct (ident_parts id Hi) as [I1 [I2 [I3 I4]]]. destruct (ident_parts ty Ht) as [T1 [T2 [T3 T4]]].
   unfold idok in I3, T3. apply andb_true_iff in I3, T3. destruct I3 as [I3 I5]. destruct T3 as [T3 T5].
   assert (N : match nm with Some s => textok s && no_char ":" s | None => true end = true /\ nobrace (name_text nm) = true).
-  { destruct nm as [s|]; [|split; reflexivity]. cbn [name_ok] in Hn. apply andb_true_iff in Hn. destruct Hn as [N1 N2].
+  { destruct nm as [s|]; [|split; reflexivity]. cbn [hname_ok] in Hn. apply andb_true_iff in Hn. destruct Hn as [N1 N2].
     cbn [name_text]. rewrite (txt_textok s N1), N2, (txt_nobrace s N1). split; reflexivity. }
   destruct N as [N1 N2]. unfold headok. rewrite I3, I2, I5, N1, T3, T2, T5. repeat split; assumption || reflexivity.
 Qed.
 
+(* what is proved of every node the writer draws: the (narrow) domain of the text-level theorem *)
+Definition ngood (n : wnode) : Prop := wf_node n = true /\ nb_node n = true /\ sq_node n = true.
+
 Lemma elem_good : forall id nm ty ws f l tl,
-  ident id = true -> name_ok nm = true -> ident ty = true -> wsok ws = true -> wsok tl = true -> noise_ok l = true ->
+  ident id = true -> hname_ok nm = true -> ident ty = true -> wsok ws = true -> wsok tl = true -> noise_ok l = true ->
   (forall t it, f t = Some it -> good it) ->
-  wf_node (WNode id nm ty (items_of ws f l) tl) = true /\ nb_node (WNode id nm ty (items_of ws f l) tl) = true.
+  ngood (WNode id nm ty (items_of ws f l) tl).
 Proof.
   intros id nm ty ws f l tl Hi Hn Ht Hws Htl Hl Hf.
-  destruct (head_good id nm ty Hi Hn Ht) as [H1 [H2 [H3 H4]]]. destruct (items_of_good ws f l Hws Hl Hf) as [G1 G2].
-  rewrite wf_node_eq, nb_node_eq, H1, H2, H3, H4, Htl, G1, G2. split; reflexivity.
+  destruct (head_good id nm ty Hi Hn Ht) as [H1 [H2 [H3 H4]]]. destruct (items_of_good ws f l Hws Hl Hf) as [G1 [G2 G3]].
+  split; [|split].
+  - rewrite wf_node_eq, H1, Htl, G1. reflexivity.
+  - rewrite nb_node_eq, H2, H3, H4, G2. reflexivity.
+  - pose proof (items_sq _ G3) as Hits. pose proof (head_pq _ _ _ H1) as Hhd. rewrite wsok_allc in Htl.
+    unfold sq_node. rewrite print_node_eq. nc.
+Qed.
+
+Lemma ngood_list : forall (A : Type) (P : A -> bool) (g : A -> wnode) l, (forall x, P x = true -> ngood (g x)) ->
+  forallb P l = true ->
+  forallb (fun x => wf_node x) (map g l) = true /\ forallb nb_node (map g l) = true /\ forallb sq_node (map g l) = true.
+Proof.
+  intros A P g l H Hl. split; [|split]; revert Hl; apply forallb_map_imp; intros x Hx; destruct (H x Hx) as [G1 [G2 G3]]; assumption.
 Qed.
 
 Lemma no_items_good : forall (t : tag) (it : witem), (fun _ : tag => @None witem) t = Some it -> good it.
@@ -351,8 +398,8 @@ Ltac side :=
   | |- valok _ = true => first [hyp | vm_compute; reflexivity]
   | |- layok _ = true => first [hyp | vm_compute; reflexivity]
   | |- ident _ = true => first [hyp | vm_compute; reflexivity]
-  | |- name_ok None = true => reflexivity
-  | |- name_ok _ = true => unfold name_ok; hyp
+  | |- hname_ok None = true => reflexivity
+  | |- hname_ok _ = true => first [hyp | unfold hname_ok; hyp]
   | |- _ => hyp
   end.
 
@@ -373,26 +420,24 @@ Proof.
   - destruct (sp_dir p) as [[|]|]; [item_fin E | item_fin E | discriminate E].
 Qed.
 
-Lemma param_good : forall D p, param_ok D p = true ->
-  wf_node (tree_of_param p) = true /\ nb_node (tree_of_param p) = true.
+Lemma param_good : forall D p, param_ok D p = true -> ngood (tree_of_param p).
 Proof.
   intros D p H. pose proof (param_item_good D p H) as Hf. unfold param_ok in H. split_and.
   unfold tree_of_param. apply elem_good; try side.
-  - cbn [name_ok]. rewrite andb_true_iff. split; assumption.
+  - cbn [hname_ok]. rewrite andb_true_iff. split; assumption.
   - eapply layout_noise; eassumption.
 Qed.
 
 Lemma params_good : forall D ps, forallb (param_ok D) ps = true ->
-  forallb (fun x => wf_node x) (map tree_of_param ps) = true /\ forallb nb_node (map tree_of_param ps) = true.
-Proof.
-  intros D ps H. split; revert H; apply forallb_map_imp; intros p Hp; destruct (param_good D p Hp); assumption.
-Qed.
+  forallb (fun x => wf_node x) (map tree_of_param ps) = true /\ forallb nb_node (map tree_of_param ps) = true
+  /\ forallb sq_node (map tree_of_param ps) = true.
+Proof. intros D ps. apply ngood_list. exact (param_good D). Qed.
 
 Lemma op_item_good : forall D o, op_ok D o = true -> forall t it, op_item o t = Some it -> good it.
 Proof.
   intros D o H t it E. unfold op_ok in H. split_and.
   assert (Hret : forallb ident (so_ret o) = true) by (apply (opt_tpath_ident D); assumption).
-  destruct (params_good D (so_params o) ltac:(assumption)) as [P1 P2].
+  destruct (params_good D (so_params o) ltac:(assumption)) as [P1 [P2 P3]].
   destruct t; cbn [op_item] in E; try discriminate E; try (item_fin E).
   - destruct (so_vis o) as [c|]; [|discriminate E].
     destruct (code_good c ltac:(assumption)) as [C1 C2]. item_fin E.
@@ -400,7 +445,7 @@ Proof.
   - destruct (so_params o) as [|p ps]; [discriminate E|]. inversion E. apply children_good; side.
 Qed.
 
-Lemma op_good : forall D o, op_ok D o = true -> wf_node (tree_of_op o) = true /\ nb_node (tree_of_op o) = true.
+Lemma op_good : forall D o, op_ok D o = true -> ngood (tree_of_op o).
 Proof.
   intros D o H. pose proof (op_item_good D o H) as Hf. unfold op_ok in H. split_and.
   unfold tree_of_op. apply elem_good; try side.
@@ -418,16 +463,15 @@ Proof.
   - destruct (sa_static a); [item_fin E | discriminate E].
 Qed.
 
-Lemma attr_good : forall D a, attr_ok D a = true -> wf_node (tree_of_attr a) = true /\ nb_node (tree_of_attr a) = true.
+Lemma attr_good : forall D a, attr_ok D a = true -> ngood (tree_of_attr a).
 Proof.
   intros D a H. pose proof (attr_item_good D a H) as Hf. unfold attr_ok in H. split_and.
   unfold tree_of_attr. apply elem_good; try side.
-  - cbn [name_ok]. rewrite andb_true_iff. split; assumption.
+  - cbn [hname_ok]. rewrite andb_true_iff. split; assumption.
   - eapply layout_noise; eassumption.
 Qed.
 
-Lemma member_good : forall D m, member_ok D m = true ->
-  wf_node (tree_of_member m) = true /\ nb_node (tree_of_member m) = true.
+Lemma member_good : forall D m, member_ok D m = true -> ngood (tree_of_member m).
 Proof.
   intros D m H. destruct m as [o|a|id name noise]; cbn [member_ok tree_of_member] in *.
   - exact (op_good D o H).
@@ -439,10 +483,9 @@ Proof.
 Qed.
 
 Lemma members_good : forall D ms, forallb (member_ok D) ms = true ->
-  forallb (fun x => wf_node x) (map tree_of_member ms) = true /\ forallb nb_node (map tree_of_member ms) = true.
-Proof.
-  intros D ms H. split; revert H; apply forallb_map_imp; intros m Hm; destruct (member_good D m Hm); assumption.
-Qed.
+  forallb (fun x => wf_node x) (map tree_of_member ms) = true /\ forallb nb_node (map tree_of_member ms) = true
+  /\ forallb sq_node (map tree_of_member ms) = true.
+Proof. intros D ms. apply ngood_list. exact (member_good D). Qed.
 
 Lemma class_item_good : forall D c, class_ok D c = true -> forall t it, class_item c t = Some it -> good it.
 Proof.
@@ -451,17 +494,17 @@ Proof.
   { match goal with H : forallb _ (sc_stereos c) = true |- _ => revert H end.
     apply forallb_imp. intros x Hx. cbv beta in Hx. split_and. assumption. }
   destruct (idents_good _ Hst) as [S1 S2].
-  destruct (members_good D (sc_members c) ltac:(assumption)) as [M1 M2].
+  destruct (members_good D (sc_members c) ltac:(assumption)) as [M1 [M2 M3]].
   destruct t; cbn [class_item] in E; try discriminate E; try (item_fin E).
   - destruct (sc_members c) as [|m ms]; [discriminate E|]. inversion E. apply children_good; side.
   - destruct (sc_stereos c) as [|i r]; [discriminate E|]. inversion E. apply refs_good; side.
 Qed.
 
-Lemma class_good : forall D c, class_ok D c = true -> wf_node (tree_of_class c) = true /\ nb_node (tree_of_class c) = true.
+Lemma class_good : forall D c, class_ok D c = true -> ngood (tree_of_class c).
 Proof.
   intros D c H. pose proof (class_item_good D c H) as Hf. unfold class_ok in H. split_and.
   unfold tree_of_class. apply elem_good; try side.
-  - cbn [name_ok]. rewrite andb_true_iff. split; assumption.
+  - cbn [hname_ok]. rewrite andb_true_iff. split; assumption.
   - eapply layout_noise; eassumption.
 Qed.
 
@@ -477,7 +520,7 @@ Proof.
   destruct (sk_paths p) as [|x r]; [discriminate E|]. inversion E. apply refs_good; side.
 Qed.
 
-Lemma package_good : forall D p, package_ok D p = true -> wf_node (tree_of_package p) = true /\ nb_node (tree_of_package p) = true.
+Lemma package_good : forall D p, package_ok D p = true -> ngood (tree_of_package p).
 Proof.
   intros D p H. pose proof (package_item_good D p H) as Hf. unfold package_ok in H. split_and.
   unfold tree_of_package. apply elem_good; try side.
@@ -493,11 +536,51 @@ Proof.
   destruct t; cbn [inh_item] in E; try discriminate E; item_fin E.
 Qed.
 
-Lemma inh_good : forall D i, inh_ok D i = true -> wf_node (tree_of_inh i) = true /\ nb_node (tree_of_inh i) = true.
+Lemma inh_good : forall D i, inh_ok D i = true -> ngood (tree_of_inh i).
 Proof.
   intros D i H. pose proof (inh_item_good D i H) as Hf. unfold inh_ok in H. split_and.
   unfold tree_of_inh. apply elem_good; try side.
   - destruct (si_real i); vm_compute; reflexivity.
+  - eapply layout_noise; eassumption.
+Qed.
+
+(* ---------------------------------------------------------------- associations: the two ends, the association *)
+
+Lemma end_item_good : forall D from e, end_ok D from e = true -> forall t it, end_item from e t = Some it -> good it.
+Proof.
+  intros D from e H t it E. unfold end_ok in H. split_and.
+  assert (Hcls : forallb ident (se_class e) = true) by (apply (path_ident D); assumption).
+  destruct t; cbn [end_item] in E; try discriminate E; try (item_fin E).
+  - destruct (se_vis e) as [c|]; [|discriminate E].
+    destruct (code_good c ltac:(assumption)) as [C1 C2]. item_fin E.
+  - destruct from; item_fin E.
+  - destruct (se_agg e) as [c|]; [|discriminate E].
+    destruct (code_good c ltac:(assumption)) as [C1 C2]. item_fin E.
+Qed.
+
+Lemma end_good : forall D from e, end_ok D from e = true -> ngood (tree_of_end from e).
+Proof.
+  intros D from e H. pose proof (end_item_good D from e H) as Hf. unfold end_ok in H. split_and.
+  unfold tree_of_end. apply elem_good; try side.
+  - eapply name_ok_hname; eassumption.
+  - eapply layout_noise; eassumption.
+Qed.
+
+Lemma assoc_item_good : forall D x, assoc_ok D x = true -> forall t it, assoc_item x t = Some it -> good it.
+Proof.
+  intros D x H t it E. unfold assoc_ok in H. split_and.
+  destruct (end_good D true (sx_from x) ltac:(assumption)) as [F1 [F2 F3]].
+  destruct (end_good D false (sx_to x) ltac:(assumption)) as [T1 [T2 T3]].
+  destruct t; cbn [assoc_item] in E; try discriminate E; try (item_fin E).
+  - inversion E. apply children_good; try side; cbn [forallb]; [rewrite F1 | rewrite F2 | rewrite F3]; reflexivity.
+  - inversion E. apply children_good; try side; cbn [forallb]; [rewrite T1 | rewrite T2 | rewrite T3]; reflexivity.
+Qed.
+
+Lemma assoc_good : forall D x, assoc_ok D x = true -> ngood (tree_of_assoc x).
+Proof.
+  intros D x H. pose proof (assoc_item_good D x H) as Hf. unfold assoc_ok in H. split_and.
+  unfold tree_of_assoc. apply elem_good; try side.
+  - eapply name_ok_hname; eassumption.
   - eapply layout_noise; eassumption.
 Qed.
 
@@ -508,20 +591,21 @@ Definition shape_ok (S : sdiagram) (se : string * selem) : bool :=
   | EClass c => class_ok S c
   | EPackage p => package_ok S p
   | EInh i => inh_ok S i
+  | EAssoc x => assoc_ok S x
   | EOther id nm ty _ noise =>
       ident id && match nm with Some n => txt n && no_char ":" n | None => true end && ident ty
       && negb (existsb (String.eqb ty) ["Class"; "Package"; "Association"; "Realization"; "Generalization"])
       && layout_ok (fun _ => None) noise
   end.
 
-Lemma shape_good : forall D se, shape_ok D se = true ->
-  wf_node (we_node (welem_of (snd se))) = true /\ nb_node (we_node (welem_of (snd se))) = true.
+Lemma shape_good : forall D se, shape_ok D se = true -> ngood (we_node (welem_of (snd se))).
 Proof.
   intros D [sid e] H. unfold shape_ok in H. cbn [snd] in *.
-  destruct e as [c|p|i|id nm ty par noise]; cbn [welem_of we_node].
+  destruct e as [c|p|i|x|id nm ty par noise]; cbn [welem_of we_node].
   - exact (class_good D c H).
   - exact (package_good D p H).
   - exact (inh_good D i H).
+  - exact (assoc_good D x H).
   - split_and. apply elem_good; try side.
     + eapply layout_noise; eassumption.
     + exact no_items_good.
@@ -530,12 +614,18 @@ Qed.
 (* the referenced elements (not part of wf_drawn) are in the domain as well *)
 Lemma ref_good : forall r,
   ident (sr_id r) && txt (sr_name r) && no_char ":" (sr_name r) && ident (sr_type r) && layout_ok (fun _ => None) (sr_noise r) = true ->
-  wf_node (we_node (welem_of_ref r)) = true /\ nb_node (we_node (welem_of_ref r)) = true.
+  ngood (we_node (welem_of_ref r)).
 Proof.
   intros r H. split_and. unfold welem_of_ref. cbn [we_node]. apply elem_good; try side.
-  - cbn [name_ok]. rewrite andb_true_iff. split; assumption.
+  - cbn [hname_ok]. rewrite andb_true_iff. split; assumption.
   - eapply layout_noise; eassumption.
   - exact no_items_good.
+Qed.
+
+(* the narrow domain (no free text, no apostrophe) lies in the wider one of the text-level theorem *)
+Lemma ngood_wide : forall n, ngood n -> wf_node n && nbq_node n && quote_ok (print_node n) = true.
+Proof.
+  intros n [G1 [G2 G3]]. unfold sq_node in G3. rewrite G1, (nb_nbq n G2), (sq_quote_ok _ G3). reflexivity.
 Qed.
 
 Lemma tree_of_wf_drawn : forall S : sdiagram, sdiagram_ok S = true -> wf_drawn (tree_of S) = true.
@@ -544,7 +634,7 @@ Proof.
   match goal with H : forallb _ (sd_shapes S) = true |- _ => rename H into Hs end.
   change (forallb (shape_ok S) (sd_shapes S) = true) in Hs.
   unfold wf_drawn, tree_of. cbn [wd_drawn]. revert Hs. apply forallb_map_imp. intros se Hse. cbn [snd].
-  destruct (shape_good S se Hse) as [G1 G2]. rewrite G1, G2, (wf_sq _ G1). reflexivity.
+  exact (ngood_wide _ (shape_good S se Hse)).
 Qed.
 
 Print Assumptions tree_of_wf_drawn.
